@@ -18,7 +18,7 @@ VARIABLES obsMade
 
 gvars == <<vars, obsMade>>
 
-AddrLeaves == LeafAddr \cup {"La4port", "La4ip", "Lhost"}
+AddrLeaves == LeafAddr \cup {"La4port", "La4ip", "Lhost"} \cup Spell
 HasAddrLeaf(p) == \E i \in 1..Len(p) : p[i] \in AddrLeaves
 
 GenInit ==
